@@ -51,10 +51,31 @@ def scenarios(ctx):
         pref = [i + 1 for i in range(len(reads)) if rng.random() < 0.25] if rng.random() < 0.4 else []
         scs.append({"reads": reads, "k": rng.randint(1, 6), "pref": pref, "bridging": rng.random() < 0.6,
                     "qual": rng.randrange(1000)})
+    # ---- what `whatshap phase` hands to the solver per family (H1 hook): depth far above the cap ----
+    from .. import phaseworld as PW
+    for i in range(300 if q else 5000):
+        fam = rng.choice(["single", "two", "trio", "quartet"])
+        ped = {"trio": [["s1", "s2", "s3"]], "quartet": [["s1", "s2", "s3"], ["s1", "s2", "s4"]]}.get(fam, [])
+        w = PW.rand_world(rng, nsamples={"single": 1, "two": 2, "trio": 3, "quartet": 4}[fam], nchroms=1, ped=ped,
+                          max_sites=rng.choice([4, 7]), depth=rng.choice([(3, 8), (10, 20)]), het_prob=0.9, kinds=("snv",))
+        w["opts"] = {"ped": bool(ped), "max_coverage": rng.choice([4, 5, 6, 8, 15])}
+        scs.append({"kind": "pipeline", "world": w})
     return scs
 
 
+def h1_to_familycap(h):
+    col = {p: i + 1 for i, p in enumerate(h["acc"])}
+    reads = [[col[p] for p, a, q in r["vars"] if p in col] for r in h["reads"]]
+    return {"ev": "FamilyCap", "reads": [r for r in reads if len(r) >= 1], "k": h["kfam"], "members": len(h["fam"])}
+
+
 def drive(sc):
+    if sc.get("kind") == "pipeline":
+        from .. import phaseworld as PW
+        e = PW.phase_run_event(sc["world"])
+        if e["exc"]:
+            return [{"ev": "Crashed", "where": "exception:" + e["exc"][:100], "detail": e["exc"]}]
+        return [h1_to_familycap(h) for h in e["h1"]]
     import random
     from whatshap.core import Read, ReadSet
     from whatshap.readselect import readselection
@@ -75,10 +96,14 @@ def drive(sc):
 
 def nontrivial(sc, events):
     e = events[0]
+    if e.get("ev") == "FamilyCap":
+        return any(len(x["reads"]) >= x["k"] for x in events if x.get("ev") == "FamilyCap")
     return e.get("ev") == "Select" and len(e["sel"]) < len(sc["reads"])
 
 
 def signature(sc, events, clause):
+    if sc.get("kind") == "pipeline":
+        return f"pipeline family={len(sc['world']['samples'])} k={sc['world']['opts'].get('max_coverage')}"
     return f"preferred={'yes' if sc['pref'] else 'no'} bridging={sc['bridging']}"
 
 
